@@ -31,10 +31,14 @@ def main():
             sh("git checkout -q -- .", "/repo")
             print(prop, commit, "does not apply", flush=True)
             continue
+        ev = f"{V}/evidence/{prop}.json"
+        saved = open(ev).read() if os.path.exists(ev) else None
         try:
             rc, out = sh(f"timeout 1500 ./check {prop}", V)
         finally:
             sh("git checkout -q -- .", "/repo")
+            if saved is not None:  # the evidence directory records clean-tree runs only
+                open(ev, "w").write(saved)
         viol = [re.sub(r"-[0-9a-f]{10}\.json", "", os.path.basename(re.search(r"replay=(\S+)", l).group(1))) +
                 (" no-failing-input-found" if l.rstrip().endswith("no-failing-input-found") else "")
                 for l in out.splitlines() if l.startswith("VIOLATION")]
